@@ -527,14 +527,14 @@ func init() {
 		// Add / Sub / Until / comparisons are exact arithmetic on it; timers fire nondeterministically
 		"time.Now": func(m *Machine, c *frame, fn *ssa.Function, a []value) value {
 			t := zero(fn.Signature.Results().At(0).Type()).(structV)
-			t[1] = mkConst(64, m.nowExt())
+			t[1] = m.nowTerm()
 			return t
 		},
 		"time.Since": func(m *Machine, c *frame, fn *ssa.Function, a []value) value {
-			return tBin("bvsub", mkConst(64, m.nowExt()), timeExt(m, a[0]))
+			return tBin("bvsub", m.nowTerm(), timeExt(m, a[0]))
 		},
 		"time.Until": func(m *Machine, c *frame, fn *ssa.Function, a []value) value {
-			return tBin("bvsub", timeExt(m, a[0]), mkConst(64, m.nowExt()))
+			return tBin("bvsub", timeExt(m, a[0]), m.nowTerm())
 		},
 		"(time.Time).Add": func(m *Machine, c *frame, fn *ssa.Function, a []value) value {
 			t := copyVal(a[0]).(structV)
@@ -1454,6 +1454,25 @@ const timeNowExt = 1000000000
 // nowExt: the engine's clock. The checks run on a constant clock (part of their stated environment);
 // `symgo selftest` lets it tick (1 µs per reading) because some of the repository's tests require elapsed
 // times to be non-zero.
+// nowTerm: one reading of the clock. Under sym.SymbolicClock(true) every reading is a fresh symbolic instant
+// constrained only to be no earlier than the previous reading (and below 2^61 ns, so that durations do not
+// wrap): the time that passes between two steps of a scenario is the solver's to choose. Such inputs are
+// labelled "rand.clock": a counterexample that depends on them is reported as an engine trace (elapsed
+// time cannot be forced in a native run).
+func (m *Machine) nowTerm() *Term {
+	if !m.symClock {
+		return mkConst(64, m.nowExt())
+	}
+	t := m.fresh("rand.clock", 64)
+	prev := m.prevNow
+	if prev == nil {
+		prev = mkConst(64, timeNowExt)
+	}
+	m.assume(tAnd(tCmp("bvsge", t, prev), tCmp("bvslt", t, mkConst(64, 1<<61))))
+	m.prevNow = t
+	return t
+}
+
 func (m *Machine) nowExt() uint64 {
 	if m.clockTicks {
 		m.clock += 1000
